@@ -65,6 +65,10 @@ pub struct FaultSpec {
     /// every component call from the k-th on fails (a device that stays broken), not only the k-th
     #[serde(default)]
     pub sticky: bool,
+    /// when non-zero the fault is not placed on the shared clock: it fails the n-th call of the
+    /// merge function (k is ignored)
+    #[serde(default)]
+    pub merge_nth: u32,
 }
 
 pub const IO_ERR_KINDS: &[io::ErrorKind] = &[
@@ -208,6 +212,7 @@ impl Counters {
 pub struct EnvInner {
     pub plan: EnvPlan,
     pub clock: u64,
+    pub merge_ticks: u64,
     pub fired: Vec<FiredFault>,
     pub crashed: bool,
     pub next_file: u32,
@@ -245,6 +250,7 @@ impl Env {
         Env(Rc::new(RefCell::new(EnvInner {
             plan,
             clock: 0,
+            merge_ticks: 0,
             fired: Vec::new(),
             crashed: false,
             next_file: 0,
@@ -387,7 +393,17 @@ impl EnvInner {
     fn tick(&mut self, kind: IoKind, file: u32, role: Option<Role>) -> Option<FaultSpec> {
         self.clock += 1;
         let clock = self.clock;
-        let hit = self.plan.faults.iter().copied().find(|f| f.k == clock || (f.sticky && clock > f.k));
+        if kind == IoKind::Merge {
+            self.merge_ticks += 1;
+        }
+        let mt = self.merge_ticks;
+        let hit = self
+            .plan
+            .faults
+            .iter()
+            .copied()
+            .find(|f| if f.merge_nth > 0 { kind == IoKind::Merge && mt == f.merge_nth as u64 } else { f.k == clock || (f.sticky && clock > f.k) })
+            .map(|f| if f.merge_nth > 0 { FaultSpec { k: clock, ..f } } else { f });
         if let Some(f) = hit {
             let io_err = match kind {
                 IoKind::Read | IoKind::Write | IoKind::Flush | IoKind::Seek => Some(io_kind_for(f.err, kind)),
@@ -894,6 +910,9 @@ pub enum MergeKind {
     Concat,
     First,
     Last,
+    /// Values joined with a 0x1F separator: associative, returns a lone value unchanged, and —
+    /// unlike concatenation — shows where an empty value stands among the others.
+    Join,
 }
 
 #[derive(Clone)]
@@ -927,6 +946,20 @@ impl grenad::MergeFunction for SimMerge {
             }
             MergeKind::First => values[0].clone(),
             MergeKind::Last => values[values.len() - 1].clone(),
+            MergeKind::Join => {
+                if values.len() == 1 {
+                    values[0].clone()
+                } else {
+                    let mut out = Vec::new();
+                    for (i, v) in values.iter().enumerate() {
+                        if i > 0 {
+                            out.push(0x1F);
+                        }
+                        out.extend_from_slice(v);
+                    }
+                    Cow::Owned(out)
+                }
+            }
         })
     }
 }
